@@ -204,6 +204,11 @@ def run_case(case):
                     w = TabWriter(fmt, notn, **wopts)
                     out1 = w(tab)
                     out2 = TabWriter(fmt, notn, **wopts)(tab)
+                    # another writer of the same format in the OTHER notation is used in between:
+                    # a reused writer must not pick up state from it
+                    other = [x for x in NOTATIONS if x != notn]
+                    if other:
+                        TabWriter(fmt, other[0], **wopts)(tab)
                     out3 = w(tab)
                     rec['len'] = len(out1)
                     rec['same'] = bool(out1 == out2 == out3) and isinstance(out1, str)
